@@ -300,8 +300,10 @@ class Ctx:
         ev = {"property_id": self.pid, "tier": self.tier, "seed": self.seed, "level": self.level,
               "coverage": cov, "assumptions": self.assumptions, "wall_s": round(wall, 2),
               "violations": len(self.violations)}
-        os.makedirs(EVIDENCE, exist_ok=True)
-        with open(os.path.join(EVIDENCE, self.pid + ".json"), "w") as fh:
+        # extension checks (X01.., specs beyond the listed properties) keep their evidence apart
+        evdir = os.path.join(EVIDENCE, "extras") if self.pid.startswith("X") else EVIDENCE
+        os.makedirs(evdir, exist_ok=True)
+        with open(os.path.join(evdir, self.pid + ".json"), "w") as fh:
             json.dump(ev, fh, indent=1, sort_keys=True)
             fh.write("\n")
         for what, rdir in self.violations:
